@@ -94,6 +94,7 @@ def run_login(run, rng, pv, order, threshold, terminal, server_id, auth,
         'C' not in before_e[first_p:] and rng.random() < 0.7
     judged_session = []
     batch_with_encryption = rng.random() < 0.6
+    glue = rng.random() < 0.5
     slow_encryption_listener = 'E' in order and rng.random() < 0.35
 
     def user_data(mid):
@@ -187,6 +188,7 @@ def run_login(run, rng, pv, order, threshold, terminal, server_id, auth,
             return
         pending = 0
         carry = []
+        tail = []
         for i, step in enumerate(order):
             nxt = order[i + 1] if i + 1 < len(order) else 'T'
             if step == 'E':
@@ -251,8 +253,16 @@ def run_login(run, rng, pv, order, threshold, terminal, server_id, auth,
                     pending -= 1
                 cid, cp = codec.encode('set_compression',
                                        {'threshold': threshold})
-                io.send_frame(cid, cp)
-                io.enable_compression(threshold)
+                if nxt == 'T' and terminal[0] == 'success' and glue:
+                    # the packets of the next framing state travel in the
+                    # same segment as the packet that announces it
+                    head = io.encode_frame(cid, cp)
+                    io.enable_compression(threshold)
+                    tail.append(head)
+                    state['glued'] = state.get('glued', 0) + 1
+                else:
+                    io.send_frame(cid, cp)
+                    io.enable_compression(threshold)
             else:
                 data = b'\x01\x02' * rng.randrange(0, 40)
                 if io.threshold is not None and 8 < io.threshold <= 4096:
@@ -275,9 +285,20 @@ def run_login(run, rng, pv, order, threshold, terminal, server_id, auth,
                     io.send_frame(qid, qp)
                 pending += 1
         if terminal[0] == 'success':
-            scripts.send_login_success(io, pv, codec)
             kid, kp = codec.encode('cb_keep_alive', {'id': 4242})
-            io.send_frame(kid, kp)
+            if glue:
+                # login success and the first play packet in one segment (the
+                # client changes its packet table between two packets of one
+                # read batch)
+                sid_, sp_ = codec.encode('login_success', {
+                    'uuid': '11111111-2222-3333-4444-555555555555',
+                    'username': 'vfuser'})
+                io.send_raw(b''.join(tail) + io.encode_frame(sid_, sp_) +
+                            io.encode_frame(kid, kp))
+                state['glued'] = state.get('glued', 0) + 1
+            else:
+                scripts.send_login_success(io, pv, codec)
+                io.send_frame(kid, kp)
             # collect outstanding plugin responses, the echo and the chats
             want_chat = 3
             got_echo = False
@@ -453,6 +474,8 @@ def run_login(run, rng, pv, order, threshold, terminal, server_id, auth,
             run.count('logins.with_decoy_object')
         run.count('frames_of_exactly_threshold_bytes',
                   state.get('exact_threshold_frames', 0))
+        run.count('logins.state_transitions_in_one_segment',
+                  state.get('glued', 0))
         run.count('logins.plugin_and_encryption_request_in_one_segment',
                   int(bool(state.get('same_batch'))))
 
@@ -661,5 +684,6 @@ def run(run):
     run.require('plugin_requests', 10)
     run.require('logins.plugin_and_encryption_request_in_one_segment', 3)
     run.require('logins.slow_encryption_request_listener', 3)
+    run.require('logins.state_transitions_in_one_segment', 10)
     run.require('plugin_answers_queued_during_encryption_reply', 3)
     run.require('orders', 20)
